@@ -22,6 +22,7 @@ def parseOp (j : Json) : Except String Op := do
   | "update" => return .update (← pairs (← j.getObjVal? "kvs"))
   | "popIdx" => return .popIdx (← getInt j "i")
   | "popKey" => return .popKey (← getStr j "k")
+  | "popKeyD" => return .popKeyD (← getStr j "k") (← (← j.getObjVal? "d").getInt?)
   | "remove" => return .remove (← getInt j "o")
   | "clear" => return .clear
   | "replaceList" => return .replaceList (← ints (← j.getObjVal? "os"))
@@ -67,7 +68,7 @@ def jObs (o : Obs) : Json := Json.mkObj [
 
 def opName : Op → String
   | .setIdx .. => "setIdx" | .setKey .. => "setKey" | .append .. => "append" | .insert .. => "insert"
-  | .extend .. => "extend" | .update .. => "update" | .popIdx .. => "popIdx" | .popKey .. => "popKey"
+  | .extend .. => "extend" | .update .. => "update" | .popIdx .. => "popIdx" | .popKey .. => "popKey" | .popKeyD .. => "popKeyD"
   | .remove .. => "remove" | .clear => "clear" | .replaceList .. => "replaceList"
   | .replaceDict .. => "replaceDict" | .assign .. => "assign"
 
